@@ -123,8 +123,21 @@ func runC09(r *Run, p *Prog) {
 		for _, f := range p.FuncsOf(pkgIDL) {
 			fns[f] = true
 		}
+		readerFns := map[*ssa.Function]bool{a.next: true, a.back: true}
+		for _, f := range a.methods {
+			readerFns[f] = true
+			readerFns[origFn(f)] = true
+		}
+		for f := range a.inlinedHelpers {
+			readerFns[f] = true
+		}
 		censusSkip = func(in ssa.Instruction) bool {
-			// slices and indexes of the input are O1's business
+			// slices and indexes of the input are O1's business - in the functions the cursor analysis covers. Anywhere
+			// else (the entry point building an error message from input[lineStart:position], a post-pass) nothing
+			// bounds the cursor, and the site is judged here like any other slice
+			if f := in.Parent(); f == nil || !(readerFns[f] || readerFns[origFn(f)]) {
+				return false
+			}
 			switch x := in.(type) {
 			case *ssa.Slice:
 				if ld, ok := x.X.(*ssa.UnOp); ok && isRecvField(ld.X, nil, a.inIdx, a.cursorT) {
